@@ -953,6 +953,10 @@ def judge_element(spec, seg, role, conv, memo, selected_names, allowed_ref, sele
                      "an inner object (written into it by an earlier render)" % (sentinel, m_f.group(1)))
         elif not tail:
             viol(top_cls, "select", "alias-missing", "alias %s is not at the end of its select item" % sentinel)
+        elif top_cls == "ExistsCriterion" and re.search(r'\) (?:AS )?["`]?(sq\d+)["`]? (?:AS )?["`]?%s["`]?$' % re.escape(sentinel), seg):
+            # the expression is followed by TWO names: an inner object's generated name and then its own alias (seeded/C04-20)
+            viol(top_cls, "select", "alias-foreign", "selected object aliased %s also renders a generated name that belongs to an "
+                 "inner object (written into it by an earlier render) before its alias: %r" % (sentinel, seg[-60:]))
         elif conv is not None and (not seg.endswith(suffix) or (not askw and tail[0][3])):
             viol(top_cls, "select", "alias-unquoted",
                  "alias %s is not written by the class's convention %r" % (sentinel, suffix))
